@@ -92,9 +92,15 @@ Fixpoint r2_rows (acct feeacct : account) (items : list citem) (bal : list (r2_k
     end)
   end.
 
-(* addBalances *)
-Definition r2_assertions (acct : account) (bal : list (r2_key * dec)) : list directive :=
+(* addBalances.  As pinned it ranged over the Go map (unspecified order: [r2_assertions_pinned]
+   with the association list in any order); since fix a319b05 the keys are sorted by date, then
+   commodity name, before the assertions are added. *)
+Definition r2_kv_ltb (a b : r2_key * dec) : bool :=
+  (fst (fst a) <? fst (fst b)) || ((fst (fst a) =? fst (fst b)) && str_ltb (snd (fst a)) (snd (fst b))).
+Definition r2_assertions_pinned (acct : account) (bal : list (r2_key * dec)) : list directive :=
   map (fun kv => assertion (fst (fst kv)) acct (snd (fst kv)) (snd kv)) bal.
+Definition r2_assertions (acct : account) (bal : list (r2_key * dec)) : list directive :=
+  r2_assertions_pinned acct (sort_by r2_kv_ltb bal).
 
 (* parser.parse *)
 Definition import_revolut2 (acct feeacct : account) (items : list citem) : mresult (list directive) :=
